@@ -1,6 +1,7 @@
 #![allow(dead_code, unused_imports, unused_variables, clippy::all)]
 //! ffv library: reference models, Scheme reader/evaluator, generators and checks.
 pub mod checks;
+pub mod combo;
 pub mod chmod;
 pub mod corpus;
 pub mod files;
